@@ -25,7 +25,7 @@ OBL = {
 
 NAME_POOL = ["x", "y", "z", "var", "e5", "E1", "inf1", "st1", "free1", "x_1", "c2", "c3", "r", "obj2", "Max1", "bnd", "a.b", "v(1)", "w#", "x1", "x2", "x10",
              "BOUND", "RHS", "RANGE", "MARKER", "longer_name_with_underscores_0123456789", "q!", "p&q", "n~", "k{2}", "t|u", "s@t", "d$", "g%"]
-ROW_POOL = ["r", "c", "con", "c2", "c3", "c10", "R1", "e5", "lim", "RHS", "RANGE", "BOUND", "obj1", "row.a", "cap(2)", "bal#1", "x", "long_constraint_name_0123456789_abcdefghij"]
+ROW_POOL = ["r", "c", "obj", "con", "c2", "c3", "c10", "R1", "e5", "lim", "RHS", "RANGE", "BOUND", "obj1", "row.a", "cap(2)", "bal#1", "x", "long_constraint_name_0123456789_abcdefghij"]
 
 
 def named_problem(rng, big=False):
